@@ -310,3 +310,16 @@ Section ColumnsOK.
       rewrite <- Hrq in His. apply (Hrd k is Hkq His).
   Qed.
 End ColumnsOK.
+
+(** C12 for columns: the k-th row pushed since creation / merge / clear gets index k (the row index
+    store is a consecutive-pairs region over an owned region of cell indices) *)
+Lemma columns_push_index R `{RegionOK R} (O : IC nat) `{ICOk _ O} chk x vs x' k :
+  inv x -> push (columns R O chk) x vs = Ok (x', k) ->
+  S k = length (ic_abs (snd (fst (snd x)))).
+Proof.
+  destruct x as [cols rows]. intros (Hic & Hir & _) Hp. cbn [push columns fst snd] in Hp.
+  destruct (push_cols R cols vs) as [[cols' is]|]; cbn [bind] in Hp; [|discriminate].
+  destruct (push (consec (owned (idx R)) O chk) rows is) as [[rows' k']|] eqn:Er; cbn [bind] in Hp; [|discriminate].
+  inversion Hp; subst. cbn [fst snd].
+  exact (@consec_push_index (owned (idx R)) _ _ _ _ O _ chk rows is rows' k Hir Er).
+Qed.
